@@ -18,7 +18,7 @@ from sim.world import Run
 
 ID = "C27"
 LEVEL = "exploration"
-RUNS = {"quick": 40000, "thorough": 500000}
+RUNS = {"quick": 40000, "thorough": 3000000}
 BUDGET = {"quick": 100.0, "thorough": 3300.0}
 RULE = ("one run = one seeded schedule of sends (1-3 concurrent callers) and RoutingBusy frames (wait time, offset, bursts, "
         "placements at the resume instant); non-trivial = at least one busy frame while a send is pending or two sends "
